@@ -157,9 +157,43 @@ class Ledger:
                 if f.bkind == "fn" and (n.startswith("lace::") or n.startswith("bin::")) and "{closure" not in n:
                     if any(c and re.search(r"LocalKey::<.*>::with_borrow(_mut)?$", c) for b, t, c in f.calls()):
                         self._tlsb.add(n)
+                    elif self._explicit_tls_borrow(f):
+                        self._tlsb.add(n)
         return self._tlsb
 
+    def _explicit_tls_borrow(self, f):
+        """`KEY.with(|cell| { let mut t = cell.borrow_mut(); callback(&mut t) })`: with_borrow_mut written out. Returns the closures that borrow
+        the cell they are handed."""
+        out = []
+        for b, t, c in f.calls():
+            if not (c and re.search(r"LocalKey::<.*>::with$", c)):
+                continue
+            for cl in t["f"].get("closures", []):
+                g = self.prog.fns.get(cl)
+                if g is None:
+                    continue
+                # only a wrapper that runs a callback while the borrow is held can be re-entered (`*cell.borrow()` alone cannot)
+                if not any((c2 and re.search(r"ops::function::Fn(Mut|Once)?(<.*>)?>?::call(_mut|_once)?$", c2)) or c2 is None for b2, t2, c2 in g.calls()):
+                    continue
+                for b2, t2, c2 in g.calls():
+                    if c2 and REFCELL.search(c2) and t2.get("args"):
+                        x = g.expr(t2["args"][0], 6)
+                        while x[0] in ("ref", "deref"):
+                            x = x[1]
+                        if x[0] == "arg" and x[1] == 2:
+                            out.append(cl)
+        return out
+
     def t_tls(self, site):
+        if site.kind == "refcell" and "::{closure" in site.fn.name:
+            parent = self.prog.fns.get(site.fn.name.rsplit("::{closure", 1)[0])
+            if parent is not None and parent.name in self._tls_borrowers() and site.fn.name in self._explicit_tls_borrow(parent):
+                x = site.operands[0] if site.operands else ("unknown",)
+                while x[0] in ("ref", "deref"):
+                    x = x[1]
+                if x[0] == "arg" and x[1] == 2:
+                    return ("the thread-local's own borrow inside its accessor `%s`: whether it can be taken twice is decided at every call of the accessor "
+                            "(tls-borrow sites)" % short(parent.name))
         if site.kind != "tls-borrow":
             return None
         w = site.extra["callee"]
@@ -230,7 +264,7 @@ class Ledger:
             if why:
                 site.tactic, site.why = tac.__name__[2:], why
                 return True
-        e = self.db.get(site.key) or self._renamed_entry(site)
+        e = self.db.get(site.key) or self._renamed_entry(site) or self._moved_entry(site)
         if e:
             ok, why = self.verify_entry(site, e)
             if ok:
@@ -243,6 +277,17 @@ class Ledger:
     def db_variants(self, site):
         e = self.db.get(site.key) or {}
         return e.get("variants", [])
+
+    def _moved_entry(self, site):
+        """the reviewed entry of a function that no longer exists, for a site of the same kind and the same operand shape: a helper written
+        into its only caller takes its sites (and the arguments made for them) along. Only when exactly one such entry fits and no
+        current site claims it."""
+        if not hasattr(self, "_short_fns"):
+            self._short_fns = {short(n) for n in self.prog.fns}
+        live = {s.key for s in self.sites}
+        tail = "|%s|%s" % (site.kind, site.desc)
+        hits = [e for k, e in self.db.items() if k not in live and re.sub(r"#\d+$", "", k).endswith(tail) and k.split("|", 1)[0] not in self._short_fns]
+        return hits[0] if len(hits) == 1 else None
 
     def _renamed_entry(self, site):
         """a ledger entry for the same function and kind whose description equals this site's up to the names of locals
@@ -290,20 +335,36 @@ class Ledger:
             for k, e in self.db.items():
                 if not k.startswith(prefix) or k in live:
                     continue
-                theirs = tok.findall(k[len(prefix):].split("#")[0])
+                theirs = tok.findall(re.sub(r"#\d+$", "", k[len(prefix):]))
                 if len(theirs) != len(mine):
                     continue
                 if all(a == b or (a in nm_ and re.match(r"[A-Za-z_]", b)) for a, b in zip(mine, theirs)):
                     hits.append(e)
             if len(hits) == 1:
                 return hits[0]
+        # the reviewed entry spelled the range of a span out (`src[span.offs()..span.offs() + span.len()]`) and the site now takes it from the
+        # span's own accessor (`src[span.as_range()]`, whose body is that very range): the same slice of the same span
+        if not hits and len(site.operands) >= 2:
+            x = site.operands[-1]
+            while x[0] in ("ref", "deref"):
+                x = x[1]
+            if x[0] == "call" and re.search(r"Span::as_range$", str(x[1])) and len(x[2]) == 1:
+                g = self.prog.fns.get(str(x[1]))
+                body = expr_str(g.local_expr(0, 10), 300) if g is not None else ""
+                if "Range" in body and "offs(" in body and ("end(" in body or "len(" in body):
+                    sp_ = expr_str(x[2][0], 120)
+                    head = "%s on &str with adt:core::ops::range::Range:Range{offs(%s), (offs(" % (site.desc.split(" ", 1)[0], sp_)
+                    for k, e in self.db.items():
+                        tail_ = re.sub(r"#\d+$", "", k[len(prefix):]).rstrip("\u2026")
+                        if k.startswith(prefix) and k not in live and len(tail_) > 40 and (head.startswith(tail_) or tail_.startswith(head)):
+                            return e
         # the reviewed entry named its operand only by a local's name (`index on &str with range`): it never spoke about how that value is
         # computed, so it still applies when the function's one site of this kind now spells the value out (`.. with as_range(&stmt.span)`)
         if not hits:
             orphans = [(k, e) for k, e in self.db.items() if k.startswith(prefix) and k not in live]
             mine_here = [s_ for s_ in self.sites if s_.fn is site.fn and s_.kind == site.kind and s_.key not in self.db]
             if len(orphans) == 1 and len(mine_here) == 1:
-                tail = orphans[0][0][len(prefix):].split("#")[0]
+                tail = re.sub(r"#\d+$", "", orphans[0][0][len(prefix):])
                 opaque = re.sub(r"^(index|index_mut|get|get_mut) on \S+ with ", "", tail)
                 # ... but only when the spelled-out value is the plain conversion of a span into a range (the only thing such a local
                 # ever held): anything computed differently is a new site and needs its own argument
@@ -775,6 +836,91 @@ class Ledger:
                 return "guarded: dominated by `%s` on the edge towards the use; neither the index nor the collection changes in between" % expr_str(cond, 80)
         return None
 
+    def _range_loop_index(self, fn, site):
+        """`v[i]` inside `for i in 0..v.len()` (the length of v does not change in the loop), and `v[k]` for a counter k that starts at 0
+        in front of that loop and is stepped by one at most once per round, behind the use: k <= i < len"""
+        t = fn.term(site.bb)
+        args = t.get("args", [])
+        if len(args) != 2 or not str(site.extra.get("callee", "")).endswith(("::index", "::index_mut")):
+            return None
+        ie = kit.strip_refs(fn.expr(args[1], 3, stop={"named"}))
+        if ie[0] != "local":
+            return None
+        vplace = kit.strip_refs(fn.expr(args[0], 6, stop={"named"}))
+        root = vplace
+        while root[0] in ("field", "deref", "ref"):
+            root = root[1]
+        if root[0] not in ("local", "arg"):
+            return None
+        lps = kit.loops(fn)
+        inl = [(h, body) for h, (body, l) in lps.items() if site.bb in body]
+        if not inl:
+            return None
+        head, body = min(inl, key=lambda x: len(x[1]))
+        th = fn.term(head)
+        if not (th["k"] == "call" and re.search(r"range::<impl core::iter::traits::iterator::Iterator for core::ops::range::Range<A>>::next$", callee_of(th) or "")):
+            return None
+        # the range: 0 .. len(v), built in front of the loop
+        it = kit.strip_refs(fn.expr(th["args"][0], 4, stop={"named"}))
+        rng = None
+        if it[0] == "local":
+            sd = fn.single_def(it[1])
+            if sd and sd[0] == "stmt":
+                rng = fn.rvalue_expr(sd[3]["r"], 8, stop={"named"})
+            elif sd and sd[0] == "call":
+                rng = ("call", callee_of(sd[3]), tuple(fn.expr(a_, 8, stop={"named"}) for a_ in sd[3]["args"]))
+        while rng is not None and rng[0] == "call" and str(rng[1]).endswith("IntoIterator>::into_iter") and len(rng[2]) == 1:
+            rng = rng[2][0]
+        if not (rng is not None and rng[0] == "agg" and rng[1][0] == "adt" and str(rng[1][1]).endswith("ops::range::Range") and len(rng[2]) == 2):
+            return None
+        lo, hi = rng[2]
+        if not (lo[0] == "const" and isinstance(lo[1], int) and lo[1] >= 0 and _canon(hi) == ("len", vplace)):
+            return None
+        # the length of v does not change while the loop runs: the only `&mut` uses of its owner inside the loop are element accesses
+        for b_ in body:
+            tt = fn.term(b_)
+            if tt["k"] == "call":
+                for a_, ty in zip(tt["args"], tt.get("arg_tys", [])):
+                    if ty.startswith("&mut") and not re.search(r"IndexMut<I>>::index_mut$|IndexMut<I> for \[T\]>::index_mut$|::swap$", callee_of(tt) or "") and b_ != head:
+                        x_ = kit.strip_refs(fn.expr(a_, 6, stop={"named"}))
+                        while x_[0] in ("field", "deref", "ref"):
+                            x_ = x_[1]
+                        if x_[:2] == root[:2]:
+                            return None
+            for s_ in fn.stmts(b_):
+                if s_["k"] == "assign" and s_["p"]["l"] == root[1] and s_["p"].get("pr") and root[0] in ("local", "arg"):
+                    return None
+        # the loop variable: `i = (next(..) as Some).0`
+        def is_loop_var(l):
+            ds = fn.defs().get(l, [])
+            if len(ds) != 1 or ds[0][0] != "stmt" or ds[0][1] not in body:
+                return False
+            e_ = fn.rvalue_expr(ds[0][3]["r"], 4)
+            x_ = e_
+            while x_[0] in ("field", "downcast", "ref", "deref"):
+                x_ = x_[1]
+            return x_[0] == "call" and callee_of(th) == x_[1] and "Some" in expr_str(e_, 120)
+        if is_loop_var(ie[1]):
+            return "guarded: the index runs over `%d..%s.len()` and the length does not change inside the loop" % (lo[1], expr_str(vplace, 40))
+        # a trailing counter
+        if lo[1] != 0:
+            return None
+        ds = fn.defs().get(ie[1], [])
+        zero = [d for d in ds if d[0] == "stmt" and fn.rvalue_expr(d[3]["r"], 4, stop={"named"}) == ("const", 0) and d[1] not in body and fn.dominates(d[1], head)]
+        steps = [d for d in ds if d[0] == "stmt" and d[1] in body]
+        if len(zero) != 1 or len(steps) != 1 or len(ds) != 2:
+            return None
+        se = fn.rvalue_expr(steps[0][3]["r"], 6, stop={"named"})
+        if not (se[0] in ("bin", "checked") and se[1] == "Add" and se[2][:2] == ie[:2] and se[3] == ("const", 1)):
+            return None
+        sb = steps[0][1]
+        if any(sb in bd and h_ != head for h_, (bd, l_) in lps.items() if len(bd) < len(body)):
+            return None                                   # stepped inside a nested loop: more than once per round
+        if site.bb in fn.reachable(sb, avoid={head}) and site.bb != sb:
+            return None                                   # used again after the step in the same round: k may equal i + 1
+        return ("guarded: `%s` starts at 0 in front of `for _ in 0..%s.len()`, is stepped by one at most once per round and only behind this use, so it never "
+                "overtakes the loop index, which stays below the length" % (ie[2] if len(ie) > 2 else "counter", expr_str(vplace, 40)))
+
     def _stable_between(self, fn, guard_bb, site_bb, cond):
         """the places a guard talks about are not written between the guard and the site: no assignment to a field the
         condition reads, and no call that receives `&mut` of the whole object those fields live in"""
@@ -1040,6 +1186,35 @@ class Ledger:
                 if _implies_ge(c, v, a, b):
                     return "guarded: dominated by `%s` = %s, operands unchanged" % (expr_str(c, 80), v)
             # a - const with a's lower bound from an equality/greater guard is interval's job
+        if site.kind == "overflow:Add" and len(site.operands) == 2 and site.operands[1] == ("const", 1):
+            # `k += 1` for a counter that starts at 0 in front of a `for _ in 0..n` loop and is stepped at most once per round: k <= loop index < n
+            k_ = kit.strip_refs(site.operands[0])
+            if k_[0] == "local":
+                lps_ = kit.loops(fn)
+                inl_ = [(h, body) for h, (body, l) in lps_.items() if site.bb in body]
+                if inl_:
+                    head_, body_ = min(inl_, key=lambda x: len(x[1]))
+                    th_ = fn.term(head_)
+                    ds_ = fn.defs().get(k_[1], [])
+                    zero_ = [d for d in ds_ if d[0] == "stmt" and fn.rvalue_expr(d[3]["r"], 4, stop={"named"}) == ("const", 0) and d[1] not in body_ and fn.dominates(d[1], head_)]
+                    steps_ = [d for d in ds_ if d[0] == "stmt" and d[1] in body_]
+                    if th_["k"] == "call" and re.search(r"range::<impl core::iter::traits::iterator::Iterator for core::ops::range::Range<A>>::next$", callee_of(th_) or "") \
+                            and "Range<usize>" in (th_.get("arg_tys") or [""])[0] and len(zero_) == 1 and len(steps_) == 1 and len(ds_) == 2:
+                        se_ = fn.rvalue_expr(steps_[0][3]["r"], 6, stop={"named"})
+                        it_ = kit.strip_refs(fn.expr(th_["args"][0], 4, stop={"named"}))
+                        rng_ = None
+                        if it_[0] == "local":
+                            sd_ = fn.single_def(it_[1])
+                            if sd_ and sd_[0] == "stmt":
+                                rng_ = fn.rvalue_expr(sd_[3]["r"], 8, stop={"named"})
+                            elif sd_ and sd_[0] == "call":
+                                rng_ = ("call", callee_of(sd_[3]), tuple(fn.expr(a_, 8, stop={"named"}) for a_ in sd_[3]["args"]))
+                        while rng_ is not None and rng_[0] == "call" and str(rng_[1]).endswith("IntoIterator>::into_iter") and len(rng_[2]) == 1:
+                            rng_ = rng_[2][0]
+                        from0 = rng_ is not None and rng_[0] == "agg" and len(rng_[2]) == 2 and rng_[2][0] == ("const", 0)
+                        nested = any(steps_[0][1] in bd and len(bd) < len(body_) for h2, (bd, l2) in lps_.items())
+                        if from0 and not nested and se_[0] in ("bin", "checked") and se_[1] == "Add" and se_[2][:2] == k_[:2] and se_[3] == ("const", 1):
+                            return "guarded: the counter starts at 0 in front of a `for _ in 0..n` loop and is stepped at most once per round, so it stays below n <= usize::MAX"
         if site.kind == "bounds" and len(site.operands) == 2:
             # chunk[k] with k a constant below the constant chunk size of the chunks_exact(n) iterator that produced `chunk`
             raw = fn.term(site.bb).get("ops", [])
@@ -1096,9 +1271,9 @@ class Ledger:
                 d1, d2 = lenform(fn.expr(raw_args[0], 16)), lenform(fn.expr(raw_args[1], 16))
                 if d1 is not None and d1 == d2:
                     return "guarded: destination and source lengths are the same linear form over slice lengths"
-        if site.kind == "index" and re.search(r"Vec<T, A> as core::ops::index::Index(Mut)?<I>>::index(_mut)?$|Vec::<T, A>::(remove|swap_remove)$", str(site.extra.get("callee", ""))):
+        if site.kind == "index" and re.search(r"Vec<T, A> as core::ops::index::Index(Mut)?<I>>::index(_mut)?$|Vec::<T, A>::(remove|swap_remove)$|<impl core::ops::index::Index(Mut)?<I> for \[T\]>::index(_mut)?$", str(site.extra.get("callee", ""))):
             # v[i] / v.remove(i) dominated by the true edge of `i < v.len()`, with neither i nor v written between the test and the use
-            r_ = self._index_below_len(fn, site)
+            r_ = self._index_below_len(fn, site) or self._range_loop_index(fn, site)
             if r_:
                 return r_
         if site.kind == "index" and len(site.operands) >= 2:
